@@ -25,6 +25,7 @@ func init() {
 		"ipc.NewReader and (*ipc.Reader).Next recover panics into errors", "arrow.Schema.FieldIndices returns every index of a name")
 	register("C07", &core.Rule{ID: "C07.1", Title: "no error dies unread on the decode path", Mod: core.ModRoot, Floor: 150, Run: c07_1, Canary: c07_1Canary})
 	register("C07", &core.Rule{ID: "C07.2", Title: "publish-before-init fields are nil-tested before use", Mod: core.ModRoot, Floor: 3, Run: c07_2})
+	register("C14", &core.Rule{ID: "C14.9", Title: "a stream whose reader could not be opened (possibly refused by the limit itself) is never dereferenced: publish-before-init fields are nil-tested before use", Mod: core.ModRoot, Floor: 3, Run: c07_2})
 	register("C07", &core.Rule{ID: "C07.4", Title: "payload count check dominates success; failures release", Mod: core.ModRoot, Floor: 2, Run: c07_4})
 	register("C07", &core.Rule{ID: "C07.5", Title: "RelatedDataFrom rejects unknown and duplicated payloads", Mod: core.ModRoot, Floor: 6, Run: c07_5})
 	register("C07", &core.Rule{ID: "C07.7", Title: "possibly-absent field ids are guarded before indexing", Mod: core.ModRoot, Floor: 30, Run: c07_7, Canary: c07_7Canary})
